@@ -58,7 +58,7 @@ type Sched struct {
 	delayHit bool
 	delayG   int64
 	// classification of messages is supplied by the driver
-	Classify func(point string, kv []any) (key string, ev map[string]any, role string)
+	Classify  func(point string, kv []any) (key string, ev map[string]any, role string)
 	recording bool
 	selfG     map[int64]bool // scheduler/driver goroutines excluded from settle detection
 }
@@ -169,6 +169,13 @@ func (s *Sched) Gate(g int64, key string) {
 	s.parked[g] = p
 	s.mu.Unlock()
 	<-p.ch
+}
+
+// StopRecording makes later events disappear (clean-up after a session).
+func (s *Sched) StopRecording() {
+	s.mu.Lock()
+	s.recording = false
+	s.mu.Unlock()
 }
 
 // Events returns a copy of the trace.
